@@ -401,7 +401,7 @@ pub struct CaseInput {
 /// failed (only used for statistics; the verdict is taken from the `# oracle` lines).
 /// Above this many tokens the model operations are not written (the list-based Lean model is
 /// quadratic in the number of tokens); the oracle still runs.
-pub const MAX_MODEL_TOKENS: usize = 7000;
+pub static MAX_MODEL_TOKENS: std::sync::atomic::AtomicUsize = std::sync::atomic::AtomicUsize::new(3000);
 
 pub fn run_case(n: u64, input: &CaseInput, lang: &Lang, out: &mut Out, dump: bool) -> bool {
     let src = input.text.as_str();
@@ -422,7 +422,10 @@ pub fn run_case(n: u64, input: &CaseInput, lang: &Lang, out: &mut Out, dump: boo
         .unwrap_or_default();
     out.line(lang_line(lang, ltoks.as_deref().unwrap_or(&[])));
     out.line(format!("src {}", hex(src.as_bytes())));
-    let model_ops = toks.as_ref().map(|t| t.len() <= MAX_MODEL_TOKENS).unwrap_or(true);
+    let model_ops = toks
+        .as_ref()
+        .map(|t| t.len() <= MAX_MODEL_TOKENS.load(std::sync::atomic::Ordering::Relaxed))
+        .unwrap_or(true);
     if !model_ops {
         out.line("# model operations skipped (more than MAX_MODEL_TOKENS tokens); oracle only");
         out.count("cases_oracle_only");
@@ -1778,6 +1781,7 @@ pub fn run(args: &Args) -> i32 {
         .or_else(|| std::env::var("VERIF_REPO").ok())
         .unwrap_or_else(|| "/repo".to_string());
     let max_bytes = args.extra_usize("maxbytes", 4096);
+    MAX_MODEL_TOKENS.store(args.extra_usize("maxmodeltokens", 3000), std::sync::atomic::Ordering::Relaxed);
     let ctx = match Ctx::load(&repo, max_bytes) {
         Ok(c) => c,
         Err(e) => {
@@ -1868,6 +1872,7 @@ pub fn run(args: &Args) -> i32 {
             let st = std::process::Command::new(&exe)
                 .args(["c12", "--seed", &args.seed.to_string(), "--cases", &args.cases.to_string(), "--only", &n.to_string()])
                 .args(["--out", &tmp, "--child", "1", "--repo", &repo, "--maxbytes", &max_bytes.to_string()])
+                .args(["--maxmodeltokens", &args.extra_usize("maxmodeltokens", 3000).to_string()])
                 .stdout(std::process::Stdio::null())
                 .stderr(std::process::Stdio::null())
                 .status();
